@@ -57,6 +57,8 @@ pub const HOSTILE: &[&str] = &[
     "hostile-block-no-tx",
     "issuance-tx-no-from",
     "tx-no-outputs",
+    "typed-tx-odd-shape",
+    "typed-tx-odd-shape",
     "gt-tx-bad-payload",
     "reconnect-storm",
     "ping",
@@ -404,6 +406,42 @@ impl Scenario for C11 {
                     let mut i = Slip::default();
                     i.public_key = ak.pk;
                     t.add_from_slip(i);
+                    t.sign(&ak.sk);
+                    send(&mut sim, Message::Transaction(t));
+                }
+                "typed-tx-odd-shape" => {
+                    // a correctly signed transaction of a special type whose slip lists have an unexpected
+                    // shape (0..4 inputs / outputs, bound / normal slip types in NFT order or not, zero
+                    // amounts so that nothing has to exist in the ledger)
+                    let mut sr = Rng::new(mix(plan.seed, 0x7e00 + mi as u64));
+                    let ty = *sr.pick(&[TransactionType::Bound, TransactionType::Bound, TransactionType::BlockStake, TransactionType::ATR, TransactionType::SPV, TransactionType::Vip, TransactionType::Fee]);
+                    let mut t = Transaction::default();
+                    t.transaction_type = ty;
+                    t.timestamp = sim.now();
+                    let nft_order = sr.chance(2, 3);
+                    let pattern = |k: usize, sr: &mut Rng| -> saito_core::core::consensus::slip::SlipType {
+                        use saito_core::core::consensus::slip::SlipType as ST;
+                        if nft_order {
+                            if k % 2 == 0 { ST::Bound } else { ST::Normal }
+                        } else {
+                            *sr.pick(&[ST::Normal, ST::Bound, ST::ATR, ST::BlockStake])
+                        }
+                    };
+                    let n_in = sr.below(5) as usize;
+                    let n_out = sr.below(5) as usize;
+                    for k in 0..n_in {
+                        let mut i = Slip::default();
+                        i.public_key = ak.pk;
+                        i.slip_type = pattern(k, &mut sr);
+                        i.slip_index = k as u8;
+                        t.add_from_slip(i);
+                    }
+                    for k in 0..n_out {
+                        let mut o = Slip::default();
+                        o.public_key = ak.pk;
+                        o.slip_type = pattern(k, &mut sr);
+                        t.add_to_slip(o);
+                    }
                     t.sign(&ak.sk);
                     send(&mut sim, Message::Transaction(t));
                 }
